@@ -56,9 +56,18 @@ type Nums struct {
 	B   bool
 }
 
+// PtrEmbed embeds a pointer to a struct.
+type PtrEmbed struct {
+	*Base
+	N int
+}
+
+// CatalogueSize is the number of catalogue values.
+const CatalogueSize = 14
+
 // Catalogue returns value number i of the named catalogue (as a struct value).
 func Catalogue(i int) any {
-	switch i % 12 {
+	switch i % CatalogueSize {
 	case 0:
 		return Inner{X: 1, Y: "y"}
 	case 1:
@@ -81,6 +90,10 @@ func Catalogue(i int) any {
 		return Nums{I8: -128, I16: 32767, I32: -1, I64: 1<<53 + 1, U8: 255, U16: 65535, U32: 1 << 31, U64: 1 << 62, F32: 1.5, F64: 0.1, B: true}
 	case 10:
 		return Nums{}
+	case 12:
+		return PtrEmbed{Base: &Base{ID: 3, Note: "x"}, N: 2}
+	case 13:
+		return PtrEmbed{N: 2}
 	default:
 		return []any{Inner{X: 1}, &Inner{X: 2}, map[string]any{"in": Inner{X: 3}}, []Inner{{X: 4}}}
 	}
